@@ -1010,3 +1010,9 @@ func init() {
 func init() {
 	mutant("scheme-never-reaches-the-uri", "pseudo-headers-once", "serverConn.go", "			strm.ctx.Request.URI().SetSchemeBytes(strm.scheme)\n", "")
 }
+
+func init() {
+	mutant("user-agent-sent-twice", "request-fields-sent-once", "conn.go", "		if bytes.EqualFold(k, StringUserAgent) {\n			continue\n		}\n\n", "")
+	mutant("user-agent-never-sent", "request-fields-sent-once", "conn.go", "	hf.SetBytes(StringUserAgent, req.Header.UserAgent())\n	enc.AppendHeaderField(h, hf, true)\n", "")
+	mutant("scheme-sent-in-place-of-the-user-agent", "request-fields-sent-once", "conn.go", "	hf.SetBytes(StringUserAgent, req.Header.UserAgent())\n", "")
+}
